@@ -23,6 +23,7 @@ import (
 	"time"
 
 	"github.com/sanonone/kektordb/pkg/core/distance"
+	"github.com/sanonone/kektordb/pkg/core/types"
 	"github.com/sanonone/kektordb/pkg/engine"
 )
 
@@ -94,7 +95,8 @@ type divergence struct {
 	Filter string   `json:"filter,omitempty"`
 	Exp    []string `json:"exp"`
 	Got    []string `json:"got"`
-	Pin    []string `json:"pin,omitempty"` // prediction of the pinned transcription, when it differs from Exp
+	HasPin bool     `json:"has_pin"`       // the pinned transcription is predicted to answer differently from Exp ...
+	Pin    []string `json:"pin"`           // ... namely this
 	Detail string   `json:"detail,omitempty"`
 	Diff   []string `json:"diff,omitempty"`
 }
@@ -130,8 +132,9 @@ const indexName = "ix"
 type runner struct {
 	p   profile
 	out *output
-	e   *engine.Engine
-	dir string
+	e     *engine.Engine
+	dir   string
+	oprng *rand.Rand // choices among equivalent entry points (separate stream: filter renderings do not depend on it)
 }
 
 func (r *runner) key(k string) string {
@@ -352,6 +355,9 @@ func (r *runner) exec(op opRec) error {
 	e := r.e
 	switch op.Op {
 	case "Add":
+		if r.oprng.Intn(4) == 0 { // the batch entry point journals and indexes the same way
+			return e.VAddBatch(indexName, []types.BatchObject{{Id: op.ID, Vector: r.vec(op.ID), Metadata: r.goMeta(op.M)}})
+		}
 		return e.VAdd(indexName, op.ID, r.vec(op.ID), r.goMeta(op.M))
 	case "Set":
 		m := r.goMeta(op.M)
@@ -415,6 +421,9 @@ func (r *runner) judge(b *behaviour, si int, rng *rand.Rand) (ndiv int) {
 		ndiv++
 		if ndiv <= r.p.MaxDiv {
 			d.ID, d.Step, d.Op = b.ID, si, st.Op
+			if d.Pin == nil {
+				d.Pin = []string{}
+			}
 			r.out.Divergences = append(r.out.Divergences, d)
 		}
 	}
@@ -422,9 +431,9 @@ func (r *runner) judge(b *behaviour, si int, rng *rand.Rand) (ndiv int) {
 	for fi := range r.p.Filters {
 		expr := r.render(fi, rng)
 		exp := st.Exp[fi]
-		var pin []string
+		pin, hasPin := []string{}, false
 		if len(st.Pin) == len(st.Exp) && st.Pin[fi] != exp {
-			pin = r.idsOf(st.Pin[fi])
+			pin, hasPin = r.idsOf(st.Pin[fi]), true
 		}
 		if exp != 0 {
 			r.out.NonEmpty++
@@ -435,12 +444,12 @@ func (r *runner) judge(b *behaviour, si int, rng *rand.Rand) (ndiv int) {
 		got, err := r.e.VFilter(indexName, expr, 1000)
 		r.out.FilterEvals++
 		if err != nil {
-			add(divergence{Kind: "filter_error", Iface: "VFilter", Fi: fi, Filter: expr, Exp: r.idsOf(exp), Got: []string{}, Pin: pin, Detail: err.Error()})
+			add(divergence{Kind: "filter_error", Iface: "VFilter", Fi: fi, Filter: expr, Exp: r.idsOf(exp), Got: []string{}, Pin: pin, HasPin: hasPin, Detail: err.Error()})
 		} else {
 			gm, clean := r.maskOf(got)
 			sort.Strings(got)
 			if gm != exp || !clean {
-				add(divergence{Kind: "filter_mismatch", Iface: "VFilter", Fi: fi, Filter: expr, Exp: r.idsOf(exp), Got: got, Pin: pin,
+				add(divergence{Kind: "filter_mismatch", Iface: "VFilter", Fi: fi, Filter: expr, Exp: r.idsOf(exp), Got: got, Pin: pin, HasPin: hasPin,
 					Diff: setDiff(r.idsOf(exp), got)})
 			}
 		}
@@ -448,13 +457,13 @@ func (r *runner) judge(b *behaviour, si int, rng *rand.Rand) (ndiv int) {
 			res, err := r.e.VSearch(indexName, query, 16, expr, "", 0, 1.0, nil)
 			r.out.SearchEvals++
 			if err != nil {
-				add(divergence{Kind: "search_error", Iface: "VSearch", Fi: fi, Filter: expr, Exp: r.idsOf(exp), Got: []string{}, Pin: pin, Detail: err.Error()})
+				add(divergence{Kind: "search_error", Iface: "VSearch", Fi: fi, Filter: expr, Exp: r.idsOf(exp), Got: []string{}, Pin: pin, HasPin: hasPin, Detail: err.Error()})
 				continue
 			}
 			gm, clean := r.maskOf(res)
 			sort.Strings(res)
 			if gm&^exp != 0 || !clean {
-				add(divergence{Kind: "search_not_subset", Iface: "VSearch", Fi: fi, Filter: expr, Exp: r.idsOf(exp), Got: res, Pin: pin,
+				add(divergence{Kind: "search_not_subset", Iface: "VSearch", Fi: fi, Filter: expr, Exp: r.idsOf(exp), Got: res, Pin: pin, HasPin: hasPin,
 					Diff: setDiff(r.idsOf(exp), res)})
 			} else if gm == exp {
 				r.out.SearchEqual++
@@ -496,6 +505,7 @@ func (r *runner) run(b *behaviour) {
 		h = h*131 + int64(c)
 	}
 	rng := rand.New(rand.NewSource(r.p.Seed*1000003 + h))
+	r.oprng = rand.New(rand.NewSource(r.p.Seed*7919 + h))
 	for si, st := range b.Steps {
 		if err := r.exec(st.Op); err != nil {
 			r.out.DivTotal++
